@@ -201,6 +201,18 @@ def run(chk):
     chk.sample({"trace_line": lines[0]})
     chk.sample({"trace_line": next(x for x in lines if x["form"] == "str")})
 
+    # ---- S3b: the repository's own tests as drivers (every format_datetime call recorded from outside by harness/record_plugin.py)
+    rl, summ = common.repo_test_traces(chk, ["timestamps"])
+    tl = rl["timestamps"]
+    for ln in tl:
+        chk.case(["repo-test"] + sig(ln))
+    for r in (common.validate_trace(chk, "Trace_Timestamps", "Trace_Timestamps", [{k: v for k, v in x.items() if k != "test"} for x in tl], "S3b_repo_tests") if tl else []):
+        ln = tl[r[0] - 1]
+        ln["recorded_from_repository_test"] = ln.get("test", "")
+        report(ln, r[2], "S3b")
+    chk.stages["S3b_repo_tests"] = dict(chk.stages.get("S3b_repo_tests", {}), recorded_distinct_calls=len(tl), tests_passed_under_recording=summ["tests_passed_under_recording"],
+                                        recorder_errors=summ["recorder_errors"])
+
     # ---- S4 binding self-test
     good = [x for i, x in enumerate(lines) if x["ok"] and x["form"] == "dt" and i not in rejected][:50]
     bad = [dict(x) for x in good]
